@@ -91,8 +91,9 @@ int cp_ecies_enc(ec_t r, uint8_t *out, size_t *out_len, const uint8_t *in,
 		bn_write_bin(_x, l, x);
 		md_kdf(key, 2 * size, _x, l);
 		l = *out_len;
-		if (bc_aes_cbc_enc(out, out_len, in, in_len, key, size, iv)
-				!= RLC_OK || (*out_len + RLC_MD_LEN) > l) {
+		/* The shared point must not be the identity (invalid public key). */
+		if (ec_is_infty(p) || bc_aes_cbc_enc(out, out_len, in, in_len, key,
+				size, iv) != RLC_OK || (*out_len + RLC_MD_LEN) > l) {
 			result = RLC_ERR;
 		} else {
 			md_hmac(out + *out_len, out, *out_len, key + size, size);
@@ -142,7 +143,9 @@ int cp_ecies_dec(uint8_t *out, size_t *out_len, const ec_t r, const uint8_t *in,
 		bn_write_bin(_x, l, x);
 		md_kdf(key, 2 * size, _x, l);
 		md_hmac(h, in, in_len - RLC_MD_LEN, key + size, size);
-		if (util_cmp_sec(h, in + in_len - RLC_MD_LEN, RLC_MD_LEN)) {
+		/* Anyone can derive the keys from the identity as shared point. */
+		if (ec_is_infty(p) || util_cmp_sec(h, in + in_len - RLC_MD_LEN,
+				RLC_MD_LEN)) {
 			result = RLC_ERR;
 		} else {
 			if (bc_aes_cbc_dec(out, out_len, in, in_len - RLC_MD_LEN,
